@@ -27,6 +27,21 @@ inductive Tree where
   | some (t : Tree)
 deriving Repr, Inhabited
 
+mutual
+/-- structural equality (the Rust side's derived `PartialEq`) -/
+def Tree.beq : Tree → Tree → Bool
+  | .leaf a, .leaf b => a == b
+  | .none, .none => true
+  | .some a, .some b => Tree.beq a b
+  | .list xs, .list ys => Tree.beqL xs ys
+  | .node k r fs, .node k' r' fs' => k == k' && r == r' && Tree.beqL fs fs'
+  | _, _ => false
+def Tree.beqL : List Tree → List Tree → Bool
+  | [], [] => true
+  | a :: as, b :: bs => Tree.beq a b && Tree.beqL as bs
+  | _, _ => false
+end
+
 /-- declared type of a field -/
 inductive Shape where
   | leaf
@@ -163,8 +178,12 @@ mutual
 def foldT (p : FoldProg) (f : Range → Range) : Tree → Tree × List FEv
   | .leaf a => (.leaf a, [])
   | .none => (.none, [])
-  | .some t => ((foldT p f t).1.some, (foldT p f t).2)
-  | .list xs => (.list ((foldL p f xs).map (·.1)), (foldL p f xs).flatMap (·.2))
+  | .some t =>
+    let r := foldT p f t
+    (r.1.some, r.2)
+  | .list xs =>
+    let rs := foldL p f xs
+    (.list (rs.map (·.1)), rs.flatMap (·.2))
   | .node k r fs =>
     match p.entries[k]? with
     | some e => assemble e f k r fs (foldL p f fs)
@@ -253,7 +272,9 @@ def visitT (p : VisitProg) (sch : Schema) : Tree → List VEv
   | .node k r fs =>
     match p.target sch k with
     | none => []
-    | some k' => ⟨k', r⟩ :: (p.calls k').flatMap fun i => ((visitL p sch fs)[i]?).getD []
+    | some k' =>
+      let pre := visitL p sch fs
+      ⟨k', r⟩ :: (p.calls k').flatMap fun i => (pre[i]?).getD []
 def visitL (p : VisitProg) (sch : Schema) : List Tree → List (List VEv)
   | [] => []
   | t :: ts => visitT p sch t :: visitL p sch ts
